@@ -40,7 +40,9 @@ type M struct {
 	// StampNow, when non-zero, is the instant new expirations are computed from (ticking-clock
 	// mode: a call decides liveness with its first clock read and stamps with its last).
 	StampNow         int64
-	CBFlip           bool   // checker-internal: CB is temporarily inverted for one call
+	CBFlip           bool   // checker-internal: CB/CBTag are temporarily replaced for one call
+	CBSave           bool   // checker-internal: the setting to restore after that call
+	CBTagSave        int
 	PinNow, PinStamp int64  // checker-internal: the clock reads chosen for one call
 	DOvr             *int64 // default expiration this one call may have read (a default set concurrently with the call)
 	Tick             bool   // ticking-clock mode
@@ -81,6 +83,7 @@ func (m *M) Hash() string {
 	if m.ColdOn {
 		fl |= 2
 	}
+	fl |= byte(m.CBTag&3) << 2 // which callback is installed is part of the state
 	b = append(b, fl)
 	for i := range m.Ents {
 		e := &m.Ents[i]
@@ -196,9 +199,15 @@ func (m *M) touch(e *Ent) {
 	}
 }
 
+// CBState is a callback setting that may have been in force during a call (installed or not, and which one).
+type CBState struct {
+	On  bool `json:"on"`
+	Tag int  `json:"tag"`
+}
+
 // tagOK: callbacks fired during a call must all have gone to the callback in force (sequential engine).
 func (m *M) tagOK(r *Res) error {
-	if m.CBTag == 0 || len(r.Ev) == 0 || m.CBFlip {
+	if m.CBTag == 0 || len(r.Ev) == 0 {
 		return nil
 	}
 	if m.CBTag == 2 && r.EvB != len(r.Ev) {
